@@ -10,12 +10,22 @@ Open Scope Z_scope.
 
 Record ctor_case := { cc_n : nat; cc_tree : tree }.
 
-Definition ctor_model (c : ctor_case) : V := V_state (init (cc_n c) 0 (cc_tree c)).
+Definition ctor_model (c : ctor_case) : V :=
+  match V_state (init (cc_n c) 0 (cc_tree c)) with
+  | VL l => VL (Vn (cc_n c) :: l)
+  | v => v
+  end.
 
+(* observation = [number of ranks; tree; rank lists as sorted paths; owners ok] *)
 Definition ctor_holds (c : ctor_case) (o : V) : bool :=
-  match V_to_state o with
-  | Some s => mirror_state (cc_n c) s && wf_tree (cc_n c) (o_tree s)
-  | None => false
+  match o with
+  | VL (VZ n :: l) =>
+    (n =? Z.of_nat (cc_n c)) && Nat.ltb O (cc_n c) &&
+    match V_to_state (VL l) with
+    | Some s => mirror_state (cc_n c) s && wf_tree (cc_n c) (o_tree s)
+    | None => false
+    end
+  | _ => false
   end.
 
 Definition ctor_checker : checker ctor_case :=
